@@ -47,7 +47,14 @@ type blog struct {
 	consumeKey     func(key string, off, max int64) (int64, []int64, error)
 	close          func() error
 	notifyNextInit int64
+	// noise: a call on the same handle that is neither Publish nor Close (Sync, GC, Stat, NextOffset, Delete, Consume,
+	// Backup): no waiter may notice it
+	noise func(kind int, scratch string) error
 }
+
+const noiseKinds = 7
+
+var noiseNames = []string{"Sync", "GC", "Stat", "NextOffset", "Delete", "Consume", "Backup"}
 
 func rawBlog(dir string) (*blog, error) {
 	l, err := klevdb.OpenBlocking(dir, klevdb.Options{KeyIndex: true})
@@ -82,6 +89,27 @@ func rawBlog(dir string) (*blog, error) {
 			return n, offs(ms), err
 		},
 		close: l.Close,
+		noise: func(kind int, scratch string) error {
+			var err error
+			switch kind {
+			case 0:
+				_, err = l.Sync()
+			case 1:
+				err = l.GC(0)
+			case 2:
+				_, err = l.Stat()
+			case 3:
+				_, err = l.NextOffset()
+			case 4:
+				_, _, err = l.Delete(map[int64]struct{}{0: {}})
+			case 5:
+				_, _, err = l.Consume(klevdb.OffsetOldest, 1)
+			case 6:
+				_ = os.MkdirAll(scratch, 0700) // Log.Backup copies into an existing directory
+				err = l.Backup(scratch)
+			}
+			return err
+		},
 	}, nil
 }
 
@@ -124,6 +152,27 @@ func typedBlog(dir string) (*blog, error) {
 			return n, offs(ms), err
 		},
 		close: l.Close,
+		noise: func(kind int, scratch string) error {
+			var err error
+			switch kind {
+			case 0:
+				_, err = l.Sync()
+			case 1:
+				err = l.GC(0)
+			case 2:
+				_, err = l.Stat()
+			case 3:
+				_, err = l.NextOffset()
+			case 4:
+				_, _, err = l.Delete(map[int64]struct{}{0: {}})
+			case 5:
+				_, _, err = l.Consume(klevdb.OffsetOldest, 1)
+			case 6:
+				_ = os.MkdirAll(scratch, 0700) // Log.Backup copies into an existing directory
+				err = l.Backup(scratch)
+			}
+			return err
+		},
 	}, nil
 }
 
@@ -210,6 +259,8 @@ type NotifyCase struct {
 	Choices   []int `json:"choices"`
 	MaxSteps  int   `json:"max_steps"`
 	FixedOffs bool  `json:"fixed_offsets"` // exhaustive mode: every waiter waits at NextOffset
+	// Noise: so many other calls (Sync, GC, Stat, NextOffset, Delete, Consume, Backup) may be placed anywhere in the schedule
+	Noise int `json:"noise,omitempty"`
 }
 
 var pausePointsC18 = map[string]bool{
@@ -450,6 +501,7 @@ func runNotifySchedule(c *NotifyCase, ch chooser, st *Stats) (viol string, inter
 		noteDone()
 	}
 	wLeft, pLeft := c.W, c.P
+	noiseLeft := c.Noise
 	closeLeft := c.Close
 	steps := c.MaxSteps
 	if steps == 0 {
@@ -482,6 +534,9 @@ func runNotifySchedule(c *NotifyCase, ch chooser, st *Stats) (viol string, inter
 		}
 		for _, tk := range cancellable {
 			acts = append(acts, action{"cancel", tk})
+		}
+		if noiseLeft > 0 && !closeStarted {
+			acts = append(acts, action{"noise", nil})
 		}
 		if closeLeft && !closeStarted {
 			// Close while a publisher is still inside Publish is a caller error (Publish on a closing log)
@@ -543,6 +598,22 @@ func runNotifySchedule(c *NotifyCase, ch chooser, st *Stats) (viol string, inter
 			startTask(tk, func() { tk.rnext, tk.rerr = l.publish(tk.n, tk.key) })
 			if tk.rerr != nil {
 				return fail("Publish failed: %v", tk.rerr), interesting
+			}
+		case "noise":
+			noiseLeft--
+			kind := ch.choose(noiseKinds, "noise_kind")
+			tk := &nTask{kind: "noise", key: noiseNames[kind]}
+			st.Inc("noise." + noiseNames[kind])
+			for _, w := range tasks {
+				if (w.kind == "wait" || w.kind == "waitkey") && !w.done {
+					interesting = true
+					st.Inc("noise_calls_with_a_waiter_inside_its_call")
+					break
+				}
+			}
+			startTask(tk, func() { tk.rerr = l.noise(kind, filepath.Join(root, fmt.Sprintf("bk%d", len(tasks)))) })
+			if tk.done && tk.rerr != nil && !errors.Is(tk.rerr, klevdb.ErrNotFound) && !errors.Is(tk.rerr, klevdb.ErrInvalidOffset) {
+				return fail("%s failed: %v", noiseNames[kind], tk.rerr), interesting
 			}
 		case "cancel":
 			clock++
@@ -609,7 +680,8 @@ func hasWaiterInWindow(tasks []*nTask) bool {
 
 func genNotifyCase(t *rapid.T) *NotifyCase {
 	return &NotifyCase{Typed: uni(t, 4, "typed") == 3, W: 1 + uni(t, 8, "W"), P: 1 + uni(t, 3, "P"), Prefill: uni(t, 3, "prefill"), Existing: pick(t, []int{0, 0, 1, 3}, "existing"),
-		AllowKey: true, Cancel: rapid.Bool().Draw(t, "cancel"), Close: rapid.Bool().Draw(t, "close"), MaxSteps: 120}
+		AllowKey: true, Cancel: rapid.Bool().Draw(t, "cancel"), Close: rapid.Bool().Draw(t, "close"), MaxSteps: 120,
+		Noise: pick(t, []int{0, 0, 1, 2, 3}, "noise")}
 }
 
 func TestC18(t *testing.T) {
@@ -658,6 +730,9 @@ func TestC18Exhaustive(t *testing.T) {
 		{W: 1, P: 2, FixedOffs: true},
 		{W: 1, P: 1, FixedOffs: true, Existing: 2},
 		{W: 1, P: 0, FixedOffs: true, Existing: 2, Cancel: true},
+		{W: 1, P: 0, FixedOffs: true, Existing: 1, Noise: 2},
+		{W: 1, P: 1, FixedOffs: true, Noise: 1},
+		{W: 1, P: 0, FixedOffs: true, Typed: true, Existing: 1, Noise: 1},
 	}
 	if thoroughTier() {
 		configs = append(configs, NotifyCase{W: 2, P: 1, FixedOffs: true}, NotifyCase{W: 2, P: 1, FixedOffs: true, Close: true})
